@@ -199,7 +199,11 @@ impl<T: Into<shapefile::Shape>> ToGeom for T {
 /// Returns the items and whether the cap was exceeded (the deterministic hang detector).
 pub fn drain<S: ToGeom, I: Iterator<Item = Result<S, shapefile::Error>>>(it: I, cap: usize) -> (Vec<Item>, bool) {
     let mut out = Vec::new();
-    for x in it {
+    let mut it = it;
+    loop {
+        // what `collect()` does between items: ask the iterator how much is left
+        let _ = it.size_hint();
+        let Some(x) = it.next() else { break };
         if out.len() >= cap {
             return (out, true);
         }
